@@ -351,6 +351,33 @@ func blockBraceOnSameLine(c *Ctx, rule string) {
 				return cur
 			case strings.HasSuffix(name, ".Optional") && len(call.Args) == 1:
 				return append([][]string{{}}, alternatives(call.Args[0], depth+1)...)
+			case strings.HasSuffix(name, ".Func") && len(call.Args) == 1:
+				// a hand-written parser: what it matches is what the parsers it runs match, in order
+				if fl, ok := ast.Unparen(call.Args[0]).(*ast.FuncLit); ok {
+					cur := [][]string{{}}
+					ast.Inspect(fl.Body, func(m ast.Node) bool {
+						pc, ok := m.(*ast.CallExpr)
+						if !ok {
+							return true
+						}
+						ps, ok := pc.Fun.(*ast.SelectorExpr)
+						if !ok || ps.Sel.Name != "Parse" {
+							return true
+						}
+						var nxt [][]string
+						for _, pre := range cur {
+							for _, alt := range alternatives(ps.X, depth+1) {
+								nxt = append(nxt, append(append([]string{}, pre...), alt...))
+							}
+						}
+						if len(nxt) > 256 {
+							nxt = nxt[:256]
+						}
+						cur = nxt
+						return false
+					})
+					return cur
+				}
 			}
 			return [][]string{{types.ExprString(call)}}
 		}
